@@ -336,6 +336,10 @@ type Rule struct {
 	Ns     int64  // ADelay
 	Once   bool   // disable after first firing
 	Site   string // "": any; else the rule only matches calls whose innermost two framework frames contain this text
+	After  *Rule  // non-nil: the rule only matches after that rule has fired, and only on the descriptor it fired on
+
+	fired   atomic.Bool
+	firedFD atomic.Int64
 
 	count atomic.Int64
 	dead  atomic.Bool
@@ -430,6 +434,9 @@ func consult(call int, fd int) *Rule {
 		if r.Class != "" && classOf(fd) != r.Class {
 			continue
 		}
+		if r.After != nil && (!r.After.fired.Load() || int(r.After.firedFD.Load()) != fd) {
+			continue
+		}
 		if r.Site != "" && !strings.Contains(siteN(2), r.Site) {
 			continue
 		}
@@ -446,6 +453,8 @@ func consult(call int, fd int) *Rule {
 		if r.Once {
 			r.dead.Store(true)
 		}
+		r.firedFD.Store(int64(fd))
+		r.fired.Store(true)
 		f := Fire{Seq: seq.Add(1), Rule: id, Call: call, FD: fd, Site: site()}
 		fireMu.Lock()
 		if len(fired) < 100000 {
